@@ -13,6 +13,7 @@ RULE = ('cases = 4 base models (pair with custom and table forms; EAM; Finnis-Si
         'a custom form or like a built-in form; a formula named like a table form; a repeated section) x position of the duplicate '
         '{directly after, end of section, start of section}, the duplicate carrying a DIFFERENT definition; through '
         'Configuration.read and potable; plus the un-duplicated controls, whose tabulated functions must follow their single definition')
+RULE += '; further models: ADP sections, labels differing only in case (CA-Ca / Ca-CA), a second table form sorting between blank-variants, a table form with capitals; Unicode blanks in keys; the same new item added twice through additional= / --add-item; a repeated section header with blanks inside the brackets; every case also through a species filter that keeps all species'
 ASSUMPTIONS = [
     'a duplicate is "rejected" when Configuration().read raises a ConfigurationException subclass and potable reports "configuration error" (exit 2) and writes no non-empty table',
     'pymath.* names are not in the statement list (pair, density, embedding, custom form, table form); ADP dipole / quadrupole entries are treated as pair interactions',
